@@ -14,5 +14,6 @@
 //@include inc/scan_order.rs
 //@include inc/compact_refines.rs
 //@include inc/canonical_spec.rs
+//@include inc/pass_spec.rs
 //@include inc/compact_fns.rs
 fn main() {}
